@@ -493,6 +493,14 @@ func GenWorldCfg(g *Rng, opt GenOpts) (World, map[string]any) {
 			add(gContent{m: map[string]any{"src": "@SRC@src/links/outlink", "dst": "/usr/share/links/outlink"}, refPath: "src/links/plain.txt", refKind: "content", single: true})
 		}
 	}
+	if opt.LinkShapes && x.feat("device_node", 0.15) {
+		// a root file system image being packaged carries device nodes
+		x.tree = append(x.tree, TreeEntry{Path: "src/rootfs/dev/null", Kind: "chardev", MTime: x.ts()})
+		x.addDir("src/rootfs/dev")
+		// (deb only: it is the format whose packager knows device members; apk
+		// refuses such a source loudly)
+		add(gContent{m: map[string]any{"src": "@SRC@src/rootfs/dev/null", "dst": "/opt/rootfs/dev/null", "packager": "deb"}, pkgr: "deb", refPath: "src/rootfs/dev/null", refKind: "content", single: true})
+	}
 	if opt.LinkShapes && x.feat("disk_symlink_to_dir", 0.3) {
 		// the usual "current release" link: names a directory of the tree
 		x.addFile("src/rel/v1/a.txt", x.sizeSmall(), 0o644)
